@@ -16,6 +16,7 @@ mod probe_dual;
 mod probe_curves;
 mod probe_calendars;
 mod probe_linalg;
+mod probe_fx;
 
 fn js(s: &str) -> String {
     s.replace('\\', "\\\\").replace('"', "\\\"").replace('\n', " ").replace('\t', " ")
@@ -406,7 +407,7 @@ fn main() {
         }
         "probe" => {
             let func = args.get(2).map(|s| s.as_str()).unwrap_or("");
-            let found = probe_dateroll(func) || probe_months(func) || probe_dual::probe(func) || probe_curves::probe(func) || probe_calendars::probe(func) || probe_linalg::probe(func);
+            let found = probe_dateroll(func) || probe_months(func) || probe_dual::probe(func) || probe_curves::probe(func) || probe_calendars::probe(func) || probe_linalg::probe(func) || probe_fx::probe(func);
             if !found {
                 println!("{{\"probe\":\"{}\",\"result\":\"no failing input found\"}}", func);
             }
